@@ -359,4 +359,17 @@ theorem peek_idem (c : Cfg) (k : Comp) (b0 b : Bytes) (x : Nat) (hv : Bytes.Vali
     rw [key]
     simp
 
+/-- the state a `peek` returns is a rest state: `peek` again does not move (whatever byte is under the cursor) -/
+theorem peek_rest (c : Cfg) (hc : Rel c) (k : Comp) (b0 b : Bytes) (v : Option Nat) (hv : Bytes.Valid b0)
+    (hp : peek c k b0 = .ok (v, b)) (hnd : ∀ y, c.isSep y = true → c.isDigit y = false) :
+    peek c k b = .ok (v, b) := by
+  obtain ⟨p1, p2, p3, p4⟩ := peek_at c k b0 b v hv hp
+  have hslc : b.slc = b0.slc := by rw [p1]; rfl
+  cases v with
+  | none => exact peek_none c hc k b (by rw [hslc]; exact p2.symm)
+  | some x =>
+    cases hs : c.isSep x with
+    | true => exact peek_idem c k b0 b x hv hp hs hnd
+    | false => exact peek_nonsep c hc k b x (by rw [hslc]; exact p2.symm) hs
+
 end LexVerif.Proof.C11
